@@ -141,6 +141,12 @@ def run_case(case):
     numeric_cols = set()
     if fam == 'cast_schema':
         numeric_cols = {c for c in range(ncols) if rng.random() < 0.6}
+    padded_numbers = False
+    if fam in ('full_nocast', 'cast_strings') and boot.rng(case['seed'], 'C13', 'padnum', case['idx']).random() < 0.35:
+        # columns of numbers written with blanks around them ('  1', '300 '): inferred numeric, the cell text kept;
+        # strip=True strips these cells like any other
+        numeric_cols = {c for c in range(ncols) if rng.random() < 0.5} or {0}
+        padded_numbers = True
     classes = sorted(CELLS)
     if rng.random() < 0.5:
         classes = [c for c in classes if c != 'newline']
@@ -157,6 +163,9 @@ def run_case(case):
                 if sample_size and i >= sample_size and rng.random() < 0.08:
                     v = rng.choice(['oops', '1.5x', 'n/a'])
                     bad_rows.add(i)
+                if padded_numbers and rng.random() < 0.4:
+                    v = rng.choice(['  ' + v, ' ' + v, v + ' '])
+                    cov['cell_class']['number_with_blanks_around'] = 1
                 row.append(v)
             else:
                 cl = rng.choice(classes)
